@@ -1,4 +1,5 @@
 import EpModel.Lemmas.Checksum
+import EpModel.Lemmas.ChecksumWire
 /-
   C09 — checksums equal the RFC 1071 Internet checksum.
 
@@ -137,5 +138,48 @@ theorem valid_sum (x c : Nat) (hc : c = 65535 - fold16 x) : fold16 (x + c) = 655
 
 /-! non-vacuity: the only hypotheses used above are range facts of machine integers, e.g. -/
 example : (0 : Nat) < 2 ^ 64 ∧ (2 ^ 64 - 1 : Nat) < 2 ^ 64 ∧ (4 : Nat) % 2 = 0 := by omega
+
+
+/-! ### `Sum16BitWords` methods, stored checksums, validation -/
+
+/-- every `Sum16BitWords` method (`add_2bytes`, `add_4bytes`, `add_8bytes`, `add_16bytes`) is `add_slice`
+    of the same bytes, from every accumulator state (including a saturated 64 bit accumulator) -/
+theorem sum16_methods_are_add_slice (s : Nat) (v : Bytes) : s16Method s v = addSlice64 s v :=
+  s16Method_eq s v
+
+theorem s16_chain_rfc (parts : List Bytes) (last : Bytes) (h : ∀ p ∈ parts, p.length % 2 = 0) :
+    swap16 (onesComplement64 ((parts ++ [last]).foldl s16Method 0)) = Spec.checksum (parts.flatten ++ last) := by
+  have : s16Method = addSlice64 := by funext s v; exact s16Method_eq s v
+  rw [this]
+  exact parts_even parts last h
+
+/-- a message whose checksum field (at an even offset) holds the RFC checksum of the message with a
+    zeroed field verifies: the checksum over everything is 0 -/
+theorem stored_checksum_verifies (pre post : Bytes) (hi lo : UInt8) (hpre : pre.length % 2 = 0)
+    (h : hi.toNat * 256 + lo.toNat = Spec.checksum (pre ++ [0, 0] ++ post)) :
+    Spec.checksum (pre ++ [hi, lo] ++ post) = 0 := by
+  rw [checksum_zero_iff]
+  have e1 : beWords (pre ++ [hi, lo] ++ post) = beWords pre + (hi.toNat * 256 + lo.toNat) + beWords post := by
+    rw [List.append_assoc, beWords_append_even _ _ hpre]
+    simp only [List.cons_append, List.nil_append, beWords]
+    omega
+  have e0 : beWords (pre ++ [0, 0] ++ post) = beWords pre + beWords post := by
+    rw [List.append_assoc, beWords_append_even _ _ hpre]
+    simp [beWords]
+  rw [e1, h]
+  unfold Spec.checksum
+  rw [ocSum_eq_fold, e0]
+  have := valid_sum (beWords pre + beWords post) (65535 - fold16 (beWords pre + beWords post)) rfl
+  rw [← this]
+  congr 1
+  omega
+
+/-- `Icmpv6Slice::is_checksum_valid` (as modelled by `validIcmp6`) accepts exactly the messages whose
+    complete sum, pseudo header included, folds to 0xffff -/
+theorem icmp6_valid_iff (src dst m : Bytes) :
+    validIcmp6 src dst m = true ↔ fold16 (beWords (pseudo6 src dst 58 m.length ++ m)) = 65535 := by
+  unfold validIcmp6
+  simp only [decide_eq_true_eq]
+  exact checksum_zero_iff _
 
 end EpModel.Props.C09
